@@ -96,7 +96,15 @@ func runLoopCases(cases []HCase, dir string) []HResult {
 		res.Init = snapOf(in.vx)
 		res.CapsTerm, res.CapsOn = capsTerm(in.vx)
 		in.close(true)
-		res.Steps = append(res.Steps, hc.Plan...)
+		for _, s := range hc.Plan {
+			res.Steps = append(res.Steps, Step{It: s.It, App: s.App})
+		}
+		if hc.held() {
+			for _, it := range parseItems(append(append([]byte(nil), hc.Held...), holdMarkerBytes...)) {
+				it := it
+				res.Steps = append(res.Steps, Step{It: &it})
+			}
+		}
 		for _, it := range parseItems(hc.Bytes) {
 			it := it
 			res.Steps = append(res.Steps, Step{It: &it})
@@ -198,6 +206,61 @@ func (g *gen) loopCase(maxTok int) HCase {
 	hc.Tags = append(hc.Tags, tags...)
 	hc.Tags = append(hc.Tags, "loop")
 	return hc
+}
+
+// fast terminal: a cursor-position query whose Write does not return before the terminal's next
+// bytes (the reply among them, or not) have been handled.  held / rest: what is handled before /
+// after the Write returns.  Explores the schedules of the input goroutine against the
+// statements of CursorPosition's prologue (the harness reports the order it observes).
+func fastCase(loop bool, mask uint32, held, rest string, tags ...string) HCase {
+	hc := HCase{Loop: loop, Mask: mask, Tags: append([]string{"fast-terminal", "app-cursor-query"}, tags...)}
+	if loop {
+		hc.Plan = []Step{{App: "ACursorQuery", Hold: 1}}
+		hc.Held = []byte(held)
+		hc.Bytes = []byte(rest + sentinelBytes)
+		hc.Show = quoted(hc.allBytes())
+		hc.Tags = append(hc.Tags, "loop")
+		return hc
+	}
+	hi := parseItems([]byte(held))
+	if len(hi) > 0 {
+		hc.Plan = []Step{{App: "ACursorQuery", Hold: len(hi)}}
+	} else {
+		hc.Plan = []Step{{App: "ACursorQuery"}}
+	}
+	for _, it := range append(hi, parseItems([]byte(rest))...) {
+		it := it
+		hc.Plan = append(hc.Plan, Step{It: &it})
+	}
+	hc.Show = quoted([]byte(held)) + " | " + quoted([]byte(rest))
+	hc.Tags = append(hc.Tags, "direct")
+	return hc
+}
+
+func (g *gen) fastCase(loop bool, maxTok int) HCase {
+	// no 10 ms clipboard waits next to a 50 ms time-out
+	ts := dropTags(g.stream(maxTok), "reply-osc52")
+	pos := -1
+	if g.n(4) != 0 {
+		pos = g.n(len(ts) + 1)
+		tok := token{"reply-cpr-solicited", fmt.Sprintf("\x1b[%d;%dR", g.n(51), g.n(101))}
+		if g.n(8) == 0 {
+			tok = token{"reply-cpr-solicited-malformed", g.pick("\x1b[R", "\x1b[7R", "\x1b[1;2;3R", "\x1b[5:1;7:2R", "\x1b[?5;7R")}
+		}
+		ts = append(ts[:pos:pos], append([]token{tok}, ts[pos:]...)...)
+	}
+	k := g.n(len(ts) + 1)
+	if pos >= 0 && g.n(2) == 0 {
+		// the reply is handled before the Write returns
+		k = pos + 1 + g.n(len(ts)-pos)
+	}
+	held, t1 := joinTokens(ts[:k])
+	rest, t2 := joinTokens(ts[k:])
+	tags := append(t1, t2...)
+	if pos >= 0 && pos < k {
+		tags = append(tags, "reply-before-write-returns")
+	}
+	return fastCase(loop, g.mask(), held, rest, tags...)
 }
 
 // synthetic items the parser cannot deliver (empty parameter lists) and odd shapes
@@ -303,6 +366,20 @@ func directed() []HCase {
 			add(loop, m, "repeated-osc11-reply", "\x1b]11;rgb:0000/0000/0000\x07\x1b]11;rgb:1/1/1\x07")
 			add(loop, m, "paste", "a\x1b[200~b\x1b[Ac\x1b[<0;1;1M\x1b[201~d")
 			add(loop, m, "reply-inband", "\x1b[48;30;100;600;1000t")
+			// a terminal faster than the writer of the cursor-position query
+			for _, f := range [][2]string{
+				{"\x1b[5;7R", "x"},
+				{"a\x1b[5;7Rb", "c"},
+				{"\x1b[1;2;3R\x1b[5;7R", "x"},
+				{"\x1b[5;7R\x1b[5;7R", ""},
+				{"a", "\x1b[5;7Rb"},
+				{"\x1b[I\x1b[<0;3;4M", "y"},
+				{"\x1b[0;0R", ""},
+				{"\x1b[200~p\x1b[5;7Rq\x1b[201~", "z"},
+				{"\x1b[8;24;80t\x1b[?62;4c\x1b[24;80R", "\x1b[1;2R"},
+			} {
+				out = append(out, fastCase(loop, m, f[0], f[1], "directed"))
+			}
 		}
 	}
 	return out
@@ -469,10 +546,12 @@ func main() {
 	handle.ShardMax, startup.ShardMax = 150, 100
 
 	nDirect, nLoop, nMouse, nStart, maxTok := 750, 600, 400, 90, 8
+	nFastDirect, nFastLoop := 110, 70
 	raceDelays := []time.Duration{0, 45 * time.Millisecond, 49500 * time.Microsecond, 50 * time.Millisecond, 50500 * time.Microsecond, 55 * time.Millisecond}
 	sizeDelays := []time.Duration{0, 99 * time.Millisecond, 101 * time.Millisecond}
 	if cfg.Thorough() {
 		nDirect, nLoop, nMouse, nStart, maxTok = 12000, 9000, 6000, 1500, 12
+		nFastDirect, nFastLoop = 1600, 1000
 		for i := 0; i < 120; i++ {
 			raceDelays = append(raceDelays, 49*time.Millisecond+time.Duration(g.n(2000))*time.Microsecond)
 		}
@@ -497,6 +576,12 @@ func main() {
 	for i := 0; i < nLoop; i++ {
 		loop = append(loop, g.loopCase(maxTok))
 	}
+	for i := 0; i < nFastDirect; i++ {
+		direct = append(direct, g.fastCase(false, maxTok))
+	}
+	for i := 0; i < nFastLoop; i++ {
+		loop = append(loop, g.fastCase(true, maxTok))
+	}
 	outcomes := map[string]int{}
 	addH := func(hc HCase, res HResult) {
 		js := map[string]interface{}{"case": hc, "observed": res}
@@ -507,6 +592,21 @@ func main() {
 			}
 		}
 		tags := append([]string{}, hc.Tags...)
+		// the observed order of CursorPosition's prologue, and whether a caller got an answer
+		for _, st := range res.Steps {
+			if st.App == "ACursorArm" {
+				tags = append(tags, "sched-armed-before-write")
+				break
+			}
+			if st.App == "ACursorWrite" {
+				tags = append(tags, "sched-written-before-armed")
+				break
+			}
+		}
+		if len(res.Cursors) > 0 {
+			tags = append(tags, "cursor-answered")
+			nontrivial = true
+		}
 		tags = append(tags, []string{"outcome-ok", "outcome-panic", "outcome-wedged"}[res.Code])
 		outcomes[tags[len(tags)-1]]++
 		handle.Add(res.term(hc), js, nontrivial || res.Code != 0, tags...)
@@ -593,6 +693,6 @@ func main() {
 		"size_reply_race":   srace,
 		"timing_note":       "partial: replies are sent at sampled real delays around the 50 ms (CursorPosition) and 100 ms (reportWinsize) time-outs; only liveness of the loop afterwards is checked",
 	}
-	rule := "handle: a case is non-trivial when the implementation delivered an event other than a plain key, or crashed/wedged; mouse: parseMouseEvent accepted or panicked; startup: at least one capability detected"
+	rule := "handle: a case is non-trivial when the implementation delivered an event other than a plain key, handed a cursor position to a waiting caller, or crashed/wedged; mouse: parseMouseEvent accepted or panicked; startup: at least one capability detected"
 	cfg.Write("C03", rule, []*hx.Stream{handle, mouse, startup}, extra, append(dv1, dv2...))
 }
